@@ -65,6 +65,9 @@ pub fn run<D: Dec>(prop: &str, rep: &mut Report) {
                 (_, false) => 1,
                 (_, true) => 4,
             };
+            if light() {
+                return Vec::new();
+            }
             let mut v = vec![long_cyclic_run::<D>(p.clone(), set, 16, wraps * (1 << 28) + (1 << 16))];
             if thorough {
                 v.push(long_cyclic_run::<D>(p, set, 1, (1 << 32) + (1 << 20)));
@@ -241,6 +244,115 @@ pub fn run<D: Dec>(prop: &str, rep: &mut Report) {
         }
     }
     rep.count("history_bytes", hist_events);
+
+    // ---------------------------------------------------------------- (b1) a key held down for a very long time: every make sequence
+    //      repeated 70 000 times on one decoder (beyond any 16-bit repeat counter), then released; every result judged
+    {
+        let typist = Typist::new(set, &r);
+        let prop_s = prop.to_string();
+        let jobs: Vec<(Vec<u8>, Vec<u8>)> = typist.make.iter().cloned().zip(typist.brk.iter().cloned()).collect();
+        let jobs = std::sync::Arc::new(jobs);
+        let shards = par_map(threads, move |t| {
+            let r = ref_for(set);
+            let mut out = ShardOut::default();
+            let mut j = t;
+            while j < jobs.len() {
+                let (m, b) = &jobs[j];
+                let outcome = guarded(|| {
+                    let mut d = D::fresh();
+                    let mut ctx = Ctx2::default();
+                    for rep_no in 0..70_001u32 {
+                        let seq: &Vec<u8> = if rep_no == 70_000 { b } else { m };
+                        for (i, x) in seq.iter().enumerate() {
+                            let c0 = ctx;
+                            let want = ref_step(set, &r, &mut ctx, *x);
+                            let g = d.advance_state(*x);
+                            if !want.accepts(&g) {
+                                return Some((rep_no, i, c0, want, res_str(&g)));
+                            }
+                        }
+                    }
+                    None
+                });
+                out.histories += 1;
+                out.bytes += 70_001 * m.len() as u64;
+                match outcome {
+                    Ok(None) => {}
+                    Ok(Some((rep_no, i, c0, want, gs))) => {
+                        // a sequence that is wrong on its own is reported by the transition sweep; this is about the repetition
+                        if rep_no > 0 {
+                            out.violations.push((
+                                format!("{}|{}|held-key|ctx={}|byte=0x{:02X}|want={}|got={}", prop_s, set_name(set), c0.name(), m[i.min(m.len() - 1)], want.show(), gs),
+                                format!("{} decoder: make sequence [{}] repeated on one decoder (typematic), repetition #{}: byte #{} returned {}; the table says {}", set_name(set), hex_bytes(m), rep_no, i + 1, gs, want.show()),
+                                J::obj().with("kind", J::s("held-key")).with("set", J::u(set as u64)).with("make_hex", J::s(hex_bytes(m))).with("repetition", J::u(rep_no as u64)),
+                            ));
+                        }
+                    }
+                    Err(p) => {
+                        out.panics += 1;
+                        out.violations.push((
+                            format!("{}|{}|held-key|panic|{}", prop_s, set_name(set), panic_sig(&p)),
+                            format!("{} decoder: make sequence [{}] repeated up to 70 000 times on one decoder (typematic) panicked where the table defines a result: {}", set_name(set), hex_bytes(m), p),
+                            J::obj().with("kind", J::s("held-key")).with("set", J::u(set as u64)).with("make_hex", J::s(hex_bytes(m))),
+                        ));
+                    }
+                }
+                j += threads;
+            }
+            out
+        });
+        let mut n = 0u64;
+        for s in shards {
+            n += s.histories;
+            rep.evaluations += s.bytes;
+            rep.panics += s.panics;
+            for (sg, what, rp) in s.violations {
+                rep.violate(sg, what, rp);
+            }
+        }
+        rep.count("make_sequences_held_for_70000_repeats", n);
+    }
+
+    // ---------------------------------------------------------------- (b1') a long time of clean typing, then one fault, then a sequence:
+    //      whatever the decoder has learnt from a proven-good line must not change how it treats the next fault
+    {
+        let (period, _) = verified_period::<D>(set);
+        let typist = Typist::new(set, &r);
+        let undefined = typist.undefined_codes.iter().copied().find(|c| ![0xE0u8, 0xE1, 0xF0].contains(c)).unwrap_or(0xFF);
+        let faults: Vec<Vec<u8>> = vec![vec![undefined], vec![0xE0, undefined], vec![0xE0, 0xE0], vec![0xE1, 0xE0], vec![0x00], vec![0xFF], vec![0xFA], vec![0xFE], vec![0xE0], vec![0xE1]];
+        let mut probes: Vec<Vec<u8>> = special_sequences(set).into_iter().take(6).collect();
+        for (i, (m, b)) in typist.make.iter().zip(typist.brk.iter()).enumerate() {
+            if i % 11 == 0 {
+                let mut v = m.clone();
+                v.extend(b);
+                probes.push(v);
+            }
+        }
+        let mut out = ShardOut::default();
+        if !period.is_empty() {
+            for clean in [64usize, 1000, 4200, 70_000] {
+                let mut head: Vec<u8> = Vec::with_capacity(clean + period.len());
+                while head.len() < clean {
+                    head.extend(period.iter());
+                }
+                for f in faults.iter() {
+                    for pr in probes.iter() {
+                        let mut bytes = head.clone();
+                        bytes.extend(f);
+                        bytes.extend(pr);
+                        bytes.extend(pr);
+                        lockstep_bare::<D>(prop, set, &r, &bytes, &mut out);
+                    }
+                }
+            }
+        }
+        rep.count("clean_typing_then_fault_then_sequence_histories", out.histories);
+        rep.evaluations += out.bytes;
+        rep.panics += out.panics;
+        for (sg, what, rp) in out.violations {
+            rep.violate(sg, what, rp);
+        }
+    }
 
     // ---------------------------------------------------------------- (b2) every ordered triple of real-world bursts, from a fresh decoder
     {
@@ -702,7 +814,7 @@ fn lockstep_bare<D: Dec>(prop: &str, set: u8, r: &ScanRef, bytes: &[u8], out: &m
                 let gs = format!("PANIC({})", panic_sig(&p));
                 out.violations.push((
                     sig(prop, set, &c0, *b, &want, &gs),
-                    format!("{} [{}] panicked: {}", set_name(set), hex_bytes(&bytes[..=i]), p),
+                    format!("{} [{}{}] panicked: {}", set_name(set), if i > 48 { format!("… {} bytes … ", i - 31) } else { String::new() }, hex_bytes(&bytes[if i > 48 { i - 31 } else { 0 }..=i]), p),
                     replay_bytes(set, &bytes[..=i], &want, &gs, "advance_state"),
                 ));
                 return;
@@ -714,9 +826,10 @@ fn lockstep_bare<D: Dec>(prop: &str, set: u8, r: &ScanRef, bytes: &[u8], out: &m
                 out.violations.push((
                     sig(prop, set, &c0, *b, &want, &gs),
                     format!(
-                        "{} stream [{}] from a fresh decoder: reference says {}, decoder returned {}",
+                        "{} stream [{}{}] from a fresh decoder: reference says {}, decoder returned {}",
                         set_name(set),
-                        hex_bytes(&bytes[..=i]),
+                        if i > 48 { format!("… {} bytes … ", i - 31) } else { String::new() },
+                        hex_bytes(&bytes[if i > 48 { i - 31 } else { 0 }..=i]),
                         want.show(),
                         gs
                     ),
